@@ -1,3 +1,401 @@
+import Bch.Proofs.BlockCache
+/-
+C16 — block and transaction wrappers always agree with the wire message they wrap.
+
+Model: `Bch/Model/BlockCache.lean` (memoising wrappers of /repo/block.go and /repo/tx.go).
+Helper definitions (all in `Bch/Proofs/BlockCache.lean`):
+* `run W s calls : St × List Res`       — fold of `step` over an accessor script;
+* `Inv W s`                              — well-formedness of a cache state (`Inv.raw` spells it out);
+* `IsCtor W s`                           — `s = initMsg ∨ s = initBytes W.ser` (the constructors);
+* `Obj = bytes | blockHash | tx k | txHash k`, `handleOf W s : Obj → Option Nat`
+                                         — the object identity cached in `s` for each memoised object;
+* `exposed W c r`, `observed W calls rs` — the (object, handle) pairs a call / a run hands out;
+* `canon : List Res → List Res`          — handles renamed by first occurrence (as the Go harness does
+                                           with real pointers);
+* `Delimits`, `LocsDelimit`, `newBlockFromBytes` — external laws of `wire`, used as explicit hypotheses.
+
+Everything is for arbitrary wire results `W`, arbitrary scripts, arbitrary (also negative / too large)
+indices.  The only hypothesis on `W` is `W.ser ≠ []` (a block serialisation is never empty: it starts
+with an 80 byte header); with an empty serialisation `Bytes()` would never be cached
+(`len(b.serializedBlock) != 0`), so "same object" would be false — the hypothesis is necessary.
+-/
 namespace Bch.Props.C16
-theorem placeholder : True := trivial
+open Bch Bch.Model.BlockCache Bch.Proofs.BlockCache
+
+/-! ## the invariant -/
+
+theorem C16_inv_initMsg (W : Wire) : Inv W initMsg := inv_initMsg W
+
+theorem C16_inv_initBytes (W : Wire) (_h : W.ser ≠ []) : Inv W (initBytes W.ser) :=
+  inv_initBytes W W.ser (Or.inl rfl)
+
+/-- every accessor call preserves the invariant (no hypothesis on `W`) -/
+theorem C16_inv_step (W : Wire) (s : St) (c : Call) (h : Inv W s) : Inv W (step W s c).1 := inv_step h c
+
+theorem C16_inv_run (W : Wire) (s : St) (calls : List Call) (h : Inv W s) : Inv W (run W s calls).1 :=
+  (run_inv calls h).1
+
+/-- the invariant, read off the raw fields of the state: slice shape, completion flag, cached bytes,
+handles below the fresh counter, handles of all kinds pairwise distinct, slot `k` has index `k` -/
+theorem C16_inv_meaning (W : Wire) (s : St) (hI : Inv W s) :
+    (∀ l, s.txs = some l → l.length = numTx W ∨ l = []) ∧
+    (s.txnsGenerated = true → ∃ l, s.txs.getD [] = l ∧ l.length = numTx W ∧
+        ∀ k, k < numTx W → ∃ w, l[k]? = some (some w)) ∧
+    (∀ b h, s.serialized = some (b, h) → b ≠ [] → b = W.ser ∧ h < s.next) ∧
+    (∀ h, s.blockHash = some h → h < s.next) ∧
+    (∀ b h h', s.serialized = some (b, h) → b ≠ [] → s.blockHash = some h' → h ≠ h') ∧
+    (∀ (l : List (Option TxW)) (k : Nat) (w : TxW), s.txs = some l → l[k]? = some (some w) →
+        w.index = (k : Int) ∧ w.handle < s.next ∧ s.blockHash ≠ some w.handle ∧
+        (∀ b, b ≠ [] → s.serialized ≠ some (b, w.handle)) ∧
+        ∀ h, w.hashHandle = some h → h < s.next ∧ h ≠ w.handle ∧ s.blockHash ≠ some h ∧
+          ∀ b, b ≠ [] → s.serialized ≠ some (b, h)) ∧
+    (∀ (l : List (Option TxW)) (k₁ k₂ : Nat) (w₁ w₂ : TxW), s.txs = some l →
+        l[k₁]? = some (some w₁) → l[k₂]? = some (some w₂) → k₁ ≠ k₂ →
+        w₁.handle ≠ w₂.handle ∧ w₁.hashHandle ≠ some w₂.handle ∧
+        (∀ h, w₁.hashHandle = some h → w₂.hashHandle ≠ some h)) := hI.raw
+
+/-- caches are only ever filled: a handle stored for an object is never changed by later calls -/
+theorem C16_handles_stable (W : Wire) (s : St) (calls : List Call) (hI : Inv W s) (o : Obj) (h : Nat)
+    (ho : handleOf W s o = some h) : handleOf W (run W s calls).1 o = some h :=
+  (run_inv calls hI).2 o h ho
+
+/-! ## coherence with the wire message (headline) -/
+
+/-- **C16_cache_coherent**, for every well-formed initial cache state (this includes both constructors,
+see `C16_cache_coherent`): in every accessor script every result is the fresh computation from the
+wire message; an out-of-range index (negative or ≥ number of transactions) gives `outOfRange`
+and nothing else; in-range `Tx i` carries index `i`. -/
+theorem C16_cache_coherent_of_inv (W : Wire) (hser : W.ser ≠ []) (s₀ : St) (h₀ : Inv W s₀)
+    (calls : List Call) :
+    (run W s₀ calls).2.length = calls.length ∧
+    ∀ (p : Nat) (c : Call) (r : Res), calls[p]? = some c → (run W s₀ calls).2[p]? = some r →
+      match c with
+      | .tx i =>
+        (0 ≤ i ∧ i < (numTx W : Int) → ∃ v h, W.txHashes[i.toNat]? = some v ∧ r = .tx v i h) ∧
+        (i < 0 ∨ (numTx W : Int) ≤ i → r = .outOfRange)
+      | .txHash i =>
+        (0 ≤ i ∧ i < (numTx W : Int) → ∃ v h, W.txHashes[i.toNat]? = some v ∧ r = .hash v h) ∧
+        (i < 0 ∨ (numTx W : Int) ≤ i → r = .outOfRange)
+      | .hash => ∃ h, r = .hash W.hash h
+      | .bytes => ∃ h, r = .bytes W.ser h
+      | .txLoc => r = .locs W.txLocs
+      | .transactions => ∃ l, r = .txs l ∧ l.length = numTx W ∧
+          ∀ (k : Nat) (v : Bytes), W.txHashes[k]? = some v → ∃ h, l[k]? = some (v, (k : Int), h) := by
+  refine ⟨run_length W calls s₀, ?_⟩
+  intro p c r hc hr
+  obtain ⟨rfl, _⟩ := run_at hser h₀ calls hc hr
+  cases c with
+  | tx i =>
+    refine ⟨fun hr => ?_, fun hr => render_tx_out _ (by unfold inRange; omega)⟩
+    obtain ⟨v, hv, e⟩ := render_tx_in (handleOf W (run W s₀ calls).1) (W := W) (i := i) hr
+    exact ⟨v, _, hv, e⟩
+  | txHash i =>
+    refine ⟨fun hr => ?_, fun hr => render_txHash_out _ (by unfold inRange; omega)⟩
+    obtain ⟨v, hv, e⟩ := render_txHash_in (handleOf W (run W s₀ calls).1) (W := W) (i := i) hr
+    exact ⟨v, _, hv, e⟩
+  | hash => exact ⟨_, rfl⟩
+  | bytes => exact ⟨_, rfl⟩
+  | txLoc => rfl
+  | transactions =>
+    obtain ⟨l, e, hl, hk⟩ := render_transactions (W := W) (handleOf W (run W s₀ calls).1)
+    exact ⟨l, e, hl, fun k v hv => ⟨_, hk k v hv⟩⟩
+
+/-- **C16_cache_coherent** (headline, full, histories): for both constructors (from message: all caches
+empty; from bytes: the consumed prefix = wire serialisation cached) and every interleaving of
+`Tx i / Transactions / TxHash i / Hash / Bytes / TxLoc` with arbitrary `i : Int`. -/
+theorem C16_cache_coherent (W : Wire) (hser : W.ser ≠ []) (s₀ : St)
+    (h₀ : s₀ = initMsg ∨ s₀ = initBytes W.ser) (calls : List Call) :
+    (run W s₀ calls).2.length = calls.length ∧
+    ∀ (p : Nat) (c : Call) (r : Res), calls[p]? = some c → (run W s₀ calls).2[p]? = some r →
+      match c with
+      | .tx i =>
+        (0 ≤ i ∧ i < (numTx W : Int) → ∃ v h, W.txHashes[i.toNat]? = some v ∧ r = .tx v i h) ∧
+        (i < 0 ∨ (numTx W : Int) ≤ i → r = .outOfRange)
+      | .txHash i =>
+        (0 ≤ i ∧ i < (numTx W : Int) → ∃ v h, W.txHashes[i.toNat]? = some v ∧ r = .hash v h) ∧
+        (i < 0 ∨ (numTx W : Int) ≤ i → r = .outOfRange)
+      | .hash => ∃ h, r = .hash W.hash h
+      | .bytes => ∃ h, r = .bytes W.ser h
+      | .txLoc => r = .locs W.txLocs
+      | .transactions => ∃ l, r = .txs l ∧ l.length = numTx W ∧
+          ∀ (k : Nat) (v : Bytes), W.txHashes[k]? = some v → ∃ h, l[k]? = some (v, (k : Int), h) :=
+  C16_cache_coherent_of_inv W hser s₀ (IsCtor.inv h₀) calls
+
+/-- the out-of-range clause on its own, for a single call in any well-formed state and without any
+hypothesis on `W`: an error result, and the state is untouched -/
+theorem C16_out_of_range (W : Wire) (s : St) (i : Int) (hi : i < 0 ∨ (numTx W : Int) ≤ i) :
+    step W s (.tx i) = (s, .outOfRange) ∧ step W s (.txHash i) = (s, .outOfRange) := by
+  have hr : ¬ inRange W i := by unfold inRange; omega
+  simp [step, getTx_oor W s i hr]
+
+/-! ## object identity -/
+
+/-- every handle handed out anywhere in a run is the handle stored for that object in the final state -/
+theorem C16_observed_stored (W : Wire) (hser : W.ser ≠ []) (s₀ : St) (h₀ : Inv W s₀) (calls : List Call)
+    (o : Obj) (h : Nat) (hm : (o, h) ∈ observed W calls (run W s₀ calls).2) :
+    handleOf W (run W s₀ calls).1 o = some h := observed_stored hser h₀ calls hm
+
+/-- **C16_same_object** (general form): among all (object, handle) pairs handed out during a run
+— `Tx i` exposes `tx i`, `Transactions` exposes `tx 0 … tx (n-1)` in order, `TxHash i` exposes `txHash i`,
+`Hash` exposes `blockHash`, `Bytes` exposes `bytes` — equal objects have equal handles and different
+objects (of the same or of different kinds) have different handles. -/
+theorem C16_same_object (W : Wire) (hser : W.ser ≠ []) (s₀ : St)
+    (h₀ : s₀ = initMsg ∨ s₀ = initBytes W.ser) (calls : List Call)
+    (o₁ o₂ : Obj) (h₁ h₂ : Nat)
+    (m₁ : (o₁, h₁) ∈ observed W calls (run W s₀ calls).2)
+    (m₂ : (o₂, h₂) ∈ observed W calls (run W s₀ calls).2) : o₁ = o₂ ↔ h₁ = h₂ := by
+  have hI := IsCtor.inv h₀
+  have a := observed_stored hser hI calls m₁
+  have b := observed_stored hser hI calls m₂
+  constructor
+  · intro e; subst e; rw [a] at b; exact Option.some.inj b
+  · intro e; subst e; exact (run_inv calls hI).1.inj o₁ o₂ h₁ a b
+
+/-- the same with explicit positions in the script -/
+theorem C16_same_object_at (W : Wire) (hser : W.ser ≠ []) (s₀ : St)
+    (h₀ : s₀ = initMsg ∨ s₀ = initBytes W.ser) (calls : List Call)
+    (p q : Nat) (c₁ c₂ : Call) (r₁ r₂ : Res)
+    (hc₁ : calls[p]? = some c₁) (hr₁ : (run W s₀ calls).2[p]? = some r₁)
+    (hc₂ : calls[q]? = some c₂) (hr₂ : (run W s₀ calls).2[q]? = some r₂)
+    (o₁ o₂ : Obj) (h₁ h₂ : Nat) (m₁ : (o₁, h₁) ∈ exposed W c₁ r₁) (m₂ : (o₂, h₂) ∈ exposed W c₂ r₂) :
+    o₁ = o₂ ↔ h₁ = h₂ := by
+  have hI := IsCtor.inv h₀
+  have a := exposed_stored hser hI calls hc₁ hr₁ m₁
+  have b := exposed_stored hser hI calls hc₂ hr₂ m₂
+  constructor
+  · intro e; subst e; rw [a] at b; exact Option.some.inj b
+  · intro e; subst e; exact (run_inv calls hI).1.inj o₁ o₂ h₁ a b
+
+/-- repeating a call (anywhere later or earlier in the script) returns the identical result, value and
+object: `Hash`, `Bytes`, `Transactions`, `TxLoc`, and `Tx i` / `TxHash i` for the same `i` -/
+theorem C16_repeat_same (W : Wire) (hser : W.ser ≠ []) (s₀ : St)
+    (h₀ : s₀ = initMsg ∨ s₀ = initBytes W.ser) (calls : List Call) (p q : Nat) (c : Call)
+    (hp : calls[p]? = some c) (hq : calls[q]? = some c) :
+    (run W s₀ calls).2[p]? = (run W s₀ calls).2[q]? := by
+  have h := (run_spec hser calls (IsCtor.inv h₀)).1
+  rw [h, List.getElem?_map, List.getElem?_map, hp, hq]
+
+/-- two `Tx` results carry the same handle iff they are for the same index -/
+theorem C16_same_object_tx (W : Wire) (hser : W.ser ≠ []) (s₀ : St)
+    (h₀ : s₀ = initMsg ∨ s₀ = initBytes W.ser) (calls : List Call) (p q : Nat) (i j : Int)
+    (v₁ v₂ : Bytes) (x₁ x₂ : Int) (h₁ h₂ : Nat)
+    (hc₁ : calls[p]? = some (.tx i)) (hr₁ : (run W s₀ calls).2[p]? = some (.tx v₁ x₁ h₁))
+    (hc₂ : calls[q]? = some (.tx j)) (hr₂ : (run W s₀ calls).2[q]? = some (.tx v₂ x₂ h₂)) :
+    h₁ = h₂ ↔ i = j := by
+  have hI := IsCtor.inv h₀
+  have ri : inRange W i := by
+    refine Decidable.byContradiction fun hn => ?_
+    have := (run_at hser hI calls hc₁ hr₁).1
+    rw [render_tx_out _ hn] at this; cases this
+  have rj : inRange W j := by
+    refine Decidable.byContradiction fun hn => ?_
+    have := (run_at hser hI calls hc₂ hr₂).1
+    rw [render_tx_out _ hn] at this; cases this
+  have := C16_same_object_at W hser s₀ h₀ calls p q _ _ _ _ hc₁ hr₁ hc₂ hr₂ (.tx i.toNat) (.tx j.toNat) h₁ h₂
+    (by simp [exposed, objsOfCall, ri, resHandles]) (by simp [exposed, objsOfCall, rj, resHandles])
+  rw [← this]
+  have a := inRange_toNat ri
+  have b := inRange_toNat rj
+  constructor
+  · intro e; injection e with e; omega
+  · intro e; rw [e]
+
+/-- two `TxHash` results carry the same hash object iff they are for the same index -/
+theorem C16_same_object_txHash (W : Wire) (hser : W.ser ≠ []) (s₀ : St)
+    (h₀ : s₀ = initMsg ∨ s₀ = initBytes W.ser) (calls : List Call) (p q : Nat) (i j : Int)
+    (v₁ v₂ : Bytes) (h₁ h₂ : Nat)
+    (hc₁ : calls[p]? = some (.txHash i)) (hr₁ : (run W s₀ calls).2[p]? = some (.hash v₁ h₁))
+    (hc₂ : calls[q]? = some (.txHash j)) (hr₂ : (run W s₀ calls).2[q]? = some (.hash v₂ h₂)) :
+    h₁ = h₂ ↔ i = j := by
+  have hI := IsCtor.inv h₀
+  have ri : inRange W i := by
+    refine Decidable.byContradiction fun hn => ?_
+    have := (run_at hser hI calls hc₁ hr₁).1
+    rw [render_txHash_out _ hn] at this; cases this
+  have rj : inRange W j := by
+    refine Decidable.byContradiction fun hn => ?_
+    have := (run_at hser hI calls hc₂ hr₂).1
+    rw [render_txHash_out _ hn] at this; cases this
+  have := C16_same_object_at W hser s₀ h₀ calls p q _ _ _ _ hc₁ hr₁ hc₂ hr₂
+    (.txHash i.toNat) (.txHash j.toNat) h₁ h₂
+    (by simp [exposed, objsOfCall, ri, resHandles]) (by simp [exposed, objsOfCall, rj, resHandles])
+  rw [← this]
+  have a := inRange_toNat ri
+  have b := inRange_toNat rj
+  constructor
+  · intro e; injection e with e; omega
+  · intro e; rw [e]
+
+/-- `Transactions()` returns in slot `i` the very wrapper (same value, index, handle) that `Tx i`
+returns, whether `Tx i` was called before or after -/
+theorem C16_same_object_transactions (W : Wire) (hser : W.ser ≠ []) (s₀ : St)
+    (h₀ : s₀ = initMsg ∨ s₀ = initBytes W.ser) (calls : List Call) (p q : Nat) (i : Int)
+    (l : List (Bytes × Int × Nat)) (v : Bytes) (x : Int) (h : Nat)
+    (hc₁ : calls[p]? = some .transactions) (hr₁ : (run W s₀ calls).2[p]? = some (.txs l))
+    (hc₂ : calls[q]? = some (.tx i)) (hr₂ : (run W s₀ calls).2[q]? = some (.tx v x h)) :
+    l[i.toNat]? = some (v, x, h) := by
+  have hI := IsCtor.inv h₀
+  have e₁ := (run_at hser hI calls hc₁ hr₁).1
+  have e₂ := (run_at hser hI calls hc₂ hr₂).1
+  have ri : inRange W i := by
+    refine Decidable.byContradiction fun hn => ?_
+    rw [render_tx_out _ hn] at e₂; cases e₂
+  obtain ⟨v', hv', e'⟩ := render_tx_in (handleOf W (run W s₀ calls).1) ri
+  rw [e'] at e₂
+  obtain ⟨l', el, _, hk⟩ := render_transactions (W := W) (handleOf W (run W s₀ calls).1)
+  rw [el] at e₁
+  cases e₁; cases e₂
+  rw [hk i.toNat v hv', (inRange_toNat ri).2]
+
+/-- handles of different kinds of object never collide: a transaction wrapper, a transaction hash,
+the block hash and the serialised bytes are four different objects -/
+theorem C16_kinds_disjoint (W : Wire) (hser : W.ser ≠ []) (s₀ : St)
+    (h₀ : s₀ = initMsg ∨ s₀ = initBytes W.ser) (calls : List Call)
+    (p₁ p₂ p₃ p₄ : Nat) (i j : Int) (v₁ v₂ v₃ v₄ : Bytes) (x : Int) (h₁ h₂ h₃ h₄ : Nat)
+    (c₁ : calls[p₁]? = some (.tx i)) (r₁ : (run W s₀ calls).2[p₁]? = some (.tx v₁ x h₁))
+    (c₂ : calls[p₂]? = some (.txHash j)) (r₂ : (run W s₀ calls).2[p₂]? = some (.hash v₂ h₂))
+    (c₃ : calls[p₃]? = some .hash) (r₃ : (run W s₀ calls).2[p₃]? = some (.hash v₃ h₃))
+    (c₄ : calls[p₄]? = some .bytes) (r₄ : (run W s₀ calls).2[p₄]? = some (.bytes v₄ h₄)) :
+    h₁ ≠ h₂ ∧ h₁ ≠ h₃ ∧ h₁ ≠ h₄ ∧ h₂ ≠ h₃ ∧ h₂ ≠ h₄ ∧ h₃ ≠ h₄ := by
+  have hI := IsCtor.inv h₀
+  have ri : inRange W i := by
+    refine Decidable.byContradiction fun hn => ?_
+    have := (run_at hser hI calls c₁ r₁).1
+    rw [render_tx_out _ hn] at this; cases this
+  have rj : inRange W j := by
+    refine Decidable.byContradiction fun hn => ?_
+    have := (run_at hser hI calls c₂ r₂).1
+    rw [render_txHash_out _ hn] at this; cases this
+  have m₁ : (Obj.tx i.toNat, h₁) ∈ exposed W (.tx i) (.tx v₁ x h₁) := by
+    simp [exposed, objsOfCall, ri, resHandles]
+  have m₂ : (Obj.txHash j.toNat, h₂) ∈ exposed W (.txHash j) (.hash v₂ h₂) := by
+    simp [exposed, objsOfCall, rj, resHandles]
+  have m₃ : (Obj.blockHash, h₃) ∈ exposed W .hash (.hash v₃ h₃) := by simp [exposed, objsOfCall, resHandles]
+  have m₄ : (Obj.bytes, h₄) ∈ exposed W .bytes (.bytes v₄ h₄) := by simp [exposed, objsOfCall, resHandles]
+  have k := C16_same_object_at W hser s₀ h₀ calls
+  refine ⟨?_, ?_, ?_, ?_, ?_, ?_⟩
+  · intro e; have := (k _ _ _ _ _ _ c₁ r₁ c₂ r₂ _ _ _ _ m₁ m₂).mpr e; cases this
+  · intro e; have := (k _ _ _ _ _ _ c₁ r₁ c₃ r₃ _ _ _ _ m₁ m₃).mpr e; cases this
+  · intro e; have := (k _ _ _ _ _ _ c₁ r₁ c₄ r₄ _ _ _ _ m₁ m₄).mpr e; cases this
+  · intro e; have := (k _ _ _ _ _ _ c₂ r₂ c₃ r₃ _ _ _ _ m₂ m₃).mpr e; cases this
+  · intro e; have := (k _ _ _ _ _ _ c₂ r₂ c₄ r₄ _ _ _ _ m₂ m₄).mpr e; cases this
+  · intro e; have := (k _ _ _ _ _ _ c₃ r₃ c₄ r₄ _ _ _ _ m₃ m₄).mpr e; cases this
+
+/-! ## transaction locations -/
+
+/-- **C16_txloc**: under the external law that the locations computed by `wire` from the fresh
+serialisation delimit each transaction's serialisation inside it (`LocsDelimit W txSer`, explicit
+hypothesis), whatever `TxLoc()` returns delimits them inside whatever `Bytes()` returns, anywhere in
+any script. -/
+theorem C16_txloc (W : Wire) (hser : W.ser ≠ []) (txSer : List Bytes) (hlaw : LocsDelimit W txSer)
+    (s₀ : St) (h₀ : s₀ = initMsg ∨ s₀ = initBytes W.ser) (calls : List Call) (p q : Nat)
+    (L : List (Nat × Nat)) (B : Bytes) (h : Nat)
+    (hc₁ : calls[p]? = some .txLoc) (hr₁ : (run W s₀ calls).2[p]? = some (.locs L))
+    (hc₂ : calls[q]? = some .bytes) (hr₂ : (run W s₀ calls).2[q]? = some (.bytes B h)) :
+    Delimits L B txSer := by
+  have hI := IsCtor.inv h₀
+  have e₁ := (run_at hser hI calls hc₁ hr₁).1
+  have e₂ := (run_at hser hI calls hc₂ hr₂).1
+  simp only [render, Res.locs.injEq] at e₁
+  simp only [render, Res.bytes.injEq] at e₂
+  rw [e₁, e₂.1]
+  exact hlaw
+
+/-! ## constructors and re-parsing -/
+
+/-- any two well-formed cache states of the same message are observationally equal: every script gives
+the same results up to renaming of handles -/
+theorem C16_observational_eq (W : Wire) (hser : W.ser ≠ []) (s s' : St) (h : Inv W s) (h' : Inv W s')
+    (calls : List Call) : canon (run W s calls).2 = canon (run W s' calls).2 :=
+  run_canon_eq hser h h' calls
+
+/-- **C16_ctor_independent**: the constructor only decides which caches start filled; what any script
+observes (values, indices, errors and the pattern of object identities) is the same. -/
+theorem C16_ctor_independent (W : Wire) (hser : W.ser ≠ []) (calls : List Call) :
+    canon (run W (initBytes W.ser) calls).2 = canon (run W initMsg calls).2 :=
+  run_canon_eq hser (inv_initBytes W W.ser (Or.inl rfl)) (inv_initMsg W) calls
+
+/-- **C16_reparse**: with the external round-trip law of `wire` (`deser (ser ++ r) = (msg, r)`,
+explicit hypothesis): take what `Bytes()` returned at any point of any script on the original block,
+append arbitrary trailing bytes, and construct a block from that with `NewBlockFromBytes`.  The new
+block wraps the same message and is observationally equal to the original *in the state it is in now*
+(after the script `pre`), hence also to a freshly constructed one. -/
+theorem C16_reparse (W : Wire) (hser : W.ser ≠ []) (deser : Bytes → Option (Wire × Bytes))
+    (hlaw : ∀ r, deser (W.ser ++ r) = some (W, r))
+    (s₀ : St) (h₀ : s₀ = initMsg ∨ s₀ = initBytes W.ser) (pre : List Call) (p : Nat) (B : Bytes) (h : Nat)
+    (hc : pre[p]? = some .bytes) (hr : (run W s₀ pre).2[p]? = some (.bytes B h)) (trailing : Bytes) :
+    ∃ s₁, newBlockFromBytes deser (B ++ trailing) = some (W, s₁) ∧
+      ∀ calls, canon (run W s₁ calls).2 = canon (run W (run W s₀ pre).1 calls).2 ∧
+               canon (run W s₁ calls).2 = canon (run W s₀ calls).2 := by
+  have hI := IsCtor.inv h₀
+  have e := (run_at hser hI pre hc hr).1
+  simp only [render, Res.bytes.injEq] at e
+  refine ⟨initBytes W.ser, by rw [e.1]; exact newBlockFromBytes_ser hlaw trailing, fun calls => ⟨?_, ?_⟩⟩
+  · exact run_canon_eq hser (inv_initBytes W W.ser (Or.inl rfl)) (run_inv pre hI).1 calls
+  · exact run_canon_eq hser (inv_initBytes W W.ser (Or.inl rfl)) hI calls
+
+/-! ## non-vacuity: a concrete block with three transactions -/
+
+example : exW.ser ≠ [] := by decide
+
+/-- the run from the message constructor, literally -/
+example : (run exW initMsg exScript).2 =
+    [.tx [0xA1] 1 0, .hash [0xA1] 1, .outOfRange,
+     .txs [([0xA0], 0, 2), ([0xA1], 1, 0), ([0xA2], 2, 3)],
+     .outOfRange, .hash [0xB0] 4, .bytes exW.ser 5, .locs [(4, 2), (6, 3), (9, 1)],
+     .tx [0xA1] 1 0, .hash [0xB0] 4] := by rfl
+
+/-- the run from the bytes constructor: handle 0 is the cached serialisation, everything else shifts -/
+example : (run exW (initBytes exW.ser) exScript).2 =
+    [.tx [0xA1] 1 1, .hash [0xA1] 2, .outOfRange,
+     .txs [([0xA0], 0, 3), ([0xA1], 1, 1), ([0xA2], 2, 4)],
+     .outOfRange, .hash [0xB0] 5, .bytes exW.ser 0, .locs [(4, 2), (6, 3), (9, 1)],
+     .tx [0xA1] 1 1, .hash [0xB0] 5] := by rfl
+
+/-- both have the same canonical form (instance of `C16_ctor_independent`) -/
+example : canon (run exW (initBytes exW.ser) exScript).2 =
+    [.tx [0xA1] 1 0, .hash [0xA1] 1, .outOfRange,
+     .txs [([0xA0], 0, 2), ([0xA1], 1, 0), ([0xA2], 2, 3)],
+     .outOfRange, .hash [0xB0] 4, .bytes exW.ser 5, .locs [(4, 2), (6, 3), (9, 1)],
+     .tx [0xA1] 1 0, .hash [0xB0] 4] := by rfl
+example : canon (run exW initMsg exScript).2 = canon (run exW (initBytes exW.ser) exScript).2 := by rfl
+
+/-- the hypothesis `W.ser ≠ []` is necessary for "same object": with an empty serialisation `Bytes()`
+never hits its cache (`len(b.serializedBlock) != 0`) and hands out a new object each time -/
+example : (run { exW with ser := [] } initMsg [.bytes, .bytes]).2 = [.bytes [] 0, .bytes [] 1] := by rfl
+
+/-- the observed (object, handle) pairs of that run: `Tx 1` twice and slot 1 of `Transactions` are the
+same object -/
+example : observed exW exScript (run exW initMsg exScript).2 =
+    [(.tx 1, 0), (.txHash 1, 1), (.tx 0, 2), (.tx 1, 0), (.tx 2, 3), (.blockHash, 4), (.bytes, 5),
+     (.tx 1, 0), (.blockHash, 4)] := by rfl
+
+/-- the hypothesis of `C16_txloc` is satisfiable: the example locations delimit the three
+transaction serialisations -/
+example : LocsDelimit exW [[1, 2], [3, 4, 5], [6]] := by
+  refine ⟨rfl, ?_⟩
+  intro k loc t h1 h2
+  match k with
+  | 0 => simp [exW] at h1 h2; subst h1; subst h2; decide
+  | 1 => simp [exW] at h1 h2; subst h1; subst h2; decide
+  | 2 => simp [exW] at h1 h2; subst h1; subst h2; decide
+  | k + 3 => simp [exW] at h1
+
+/-- the hypothesis of `C16_reparse` is satisfiable: the toy deserialiser `exDeser`
+recognises `exW.ser` as a prefix and returns the rest -/
+example : ∀ r, exDeser (exW.ser ++ r) = some (exW, r) := by
+  intro r
+  simp [exDeser, exW]
+
+example : (newBlockFromBytes exDeser (exW.ser ++ [0xDE, 0xAD])).map (·.2.serialized) =
+    some (some (exW.ser, 0)) := by rfl
+
+/-- a state violating the invariant is rejected: the pre-fix behaviour (whole input incl. trailing
+bytes cached) is *not* well-formed, so the theorems do not silently cover it -/
+example : ¬ Inv exW (initBytes (exW.ser ++ [0xDE, 0xAD])) := by
+  intro h
+  have := h.ser _ _ rfl (by decide)
+  revert this
+  decide
+
 end Bch.Props.C16
